@@ -6,7 +6,7 @@ import json
 import os
 
 from mc import pipeline, procs, vpool
-from mc.common import HarnessError, Stats, pmap, safe, scratch_dir, rm_scratch, VERIF
+from mc.common import HarnessError, Stats, pmap, safe, scratch_dir, rm_scratch, VERIF, isolated
 
 PROPERTY = 'C09'
 LEVEL = 'model_checking'
@@ -179,8 +179,27 @@ def cli_run(job):
     return {'config': cfg, 'seed': seed, 'threads': threads, 'rep': rep, 'rc': rc, 'rows': obs, 'stderr': se[-600:] if rc != 0 else ''}
 
 
+def _base_job(job):
+    cfg, W = job
+    return safe(run_schedule, cfg, W, ())
+
+
+def _inline_job(cfg):
+    c = CONFIGS[cfg]
+    over = dict(c['over'])
+    over['include_cardinality_in_feature_names'] = 'False'
+    return safe(lambda: observe(pipeline.run_task(data_text(16, c['cols']), over)))
+
+
 def base_or_violation(ctx, cfg, W):
-    ok, res = safe(run_schedule, cfg, W, ())
+    # in a child that may die or hang: the configurations include compiled code paths (sampling ratio < 1)
+    tag, val = isolated(_base_job, (cfg, W), timeout=300)
+    if tag == 'harness':
+        raise HarnessError(val)
+    if tag != 'ok':
+        ctx.stats.violation({'kind': 'schedule', 'config': cfg, 'W': W, 'schedule': []}, f'{cfg}: the process running the ranking task under the sequential schedule (W={W}) ' + ('did not terminate' if tag == 'timeout' else f'died with status {val}'), {'kind': 'crash', 'config': cfg})
+        return None
+    ok, res = val
     if not ok:
         ctx.stats.violation({'kind': 'schedule', 'config': cfg, 'W': W, 'schedule': []}, f'{cfg}: ranking task raised {res} under the sequential schedule with W={W}', {'kind': 'exception', 'config': cfg})
         return None
@@ -216,7 +235,8 @@ def run(ctx):
         c = CONFIGS[cfg]
         over = dict(c['over'])
         over['include_cardinality_in_feature_names'] = 'False'
-        ok_i, inl = safe(lambda: observe(pipeline.run_task(data_text(16, c['cols']), over)))
+        tag_i, val_i = isolated(_inline_job, cfg, timeout=300)
+        ok_i, inl = val_i if tag_i == 'ok' else (False, f'process ended abnormally ({tag_i} {val_i})')
         r1 = base_or_violation(ctx, cfg, 1)
         if not ok_i or r1 is None:
             if not ok_i:
@@ -233,7 +253,7 @@ def run(ctx):
         bw = base_or_violation(ctx, 'target', W) if base1 else None
         if bw and bw[0]['pairwise'] != base1['pairwise']:
             ctx.stats.violation({'kind': 'schedule', 'config': 'target', 'W': W, 'schedule': []}, f'sequential result with W={W} differs from W=1', {'kind': 'pool_size_dependent'})
-    for st in pmap(_sched_job, jobs):
+    for st in pmap(_sched_job, jobs, job_timeout=600):
         ctx.stats.merge(st)
     ctx.stats.sample({'kind': 'schedule', 'config': 'target', 'W': 3, 'schedule': [0, 1, 2, 0, 1, 1, 2, 0]})
     ctx.stats.sample({'kind': 'cli', 'config': 'focus', 'seed': 1, 'threads': 2, 'ref_seed': 0, 'ref_threads': 1})
